@@ -164,6 +164,9 @@ def generate(rng, tier, n):
                     cases.append(Case(f"({h} {c} {v + extra} {ks})", ("hist", kind, "retry") + tg, "exhaustive"))
                     cases.append(Case(f"({h} {c} {v + extra} {ks2})", ("hist", kind, "retry") + tg, "exhaustive"))
     # the(...) as an operand of an enclosing query; Symbol-typed list domains (other instances of the type alive elsewhere)
+    for k in range(4):
+        for k2 in range(4):
+            cases.append(Case(f"(nthem {k} {k2})", ("the", "nested-operand", "data-changed"), "exhaustive"))
     for k in range(min(N, 5) + 1):
         cases.append(Case(f"(nthe {k})", ("the", "nested-operand"), "exhaustive"))
         for extra in (0, 2):
@@ -299,6 +302,12 @@ class _Item:
     def __init__(self, i): self.i = i
 
 
+class _TagItem(_Item):
+    """domain elements with a mutable attribute the sub-query's condition reads"""
+    __slots__ = ("tag",)
+    def __init__(self, i): self.i = i; self.tag = 0
+
+
 class _Done:
     """an evaluation that has ended (by StopIteration or by an error): every further next() is 'stop'"""
     _done = True
@@ -359,6 +368,25 @@ def _one(case: Case) -> str:
             y = let(_Item, inner)
             got = [r.i for r in an(entity(x, x.i == the(entity(y, y.i >= 0)).i)).evaluate()]
             return f"value {got[0]}" if len(got) == 1 else f"rows {got}"
+        if s[0] == "nthem":
+            # the(...) as an operand, the enclosing query evaluated TWICE; between the evaluations the data change so that
+            # the sub-query has n1, then n2 solutions: every evaluation enforces the count there is when it runs
+            n1, n2 = int(s[1]), int(s[2])
+            outer = [_Item(i) for i in range(3)]
+            inner = [_TagItem(i) for i in range(max(n1, n2, 1))]
+            x = let(_Item, outer)
+            y = let(_TagItem, inner)
+            q = an(entity(x, x.i == the(entity(y, y.tag == 1)).i))
+            outs = []
+            for n in (n1, n2):
+                for j, it in enumerate(inner):
+                    it.tag = 1 if j < n else 0
+                try:
+                    got = [r.i for r in q.evaluate()]
+                    outs.append(f"value {got[0]}" if len(got) == 1 else f"rows {got}")
+                except Exception as ex:  # noqa: BLE001
+                    outs.append(_exc_name(ex))
+            return " ; ".join(outs)
         if s[0] == "runs":
             c = _mk(s[1])
             n, extra = int(s[2]), int(s[3])
